@@ -155,9 +155,16 @@ fn series_oracle(c: &Series) -> Verdict {
                 pos = want_k + 1;
             } else {
                 ensure!(got.is_none(), "nth({}) past the end gives an item", j);
+                pos = expected; // nth past the end consumes what was left
                 break;
             }
         }
+        // a partly consumed series (pos items taken) and the exhausted one seen through count() / last()
+        let remaining = (expected - pos).max(0);
+        ensure!(lib!(it2.clone().count()) as i128 == remaining, "after consuming {} of {} items, count() = {}, want {}", pos, expected, it2.clone().count(), remaining);
+        ensure!(lib!(it2.clone().last()).map(|e| count(e.duration)) == if remaining > 0 { Some(item(expected - 1)) } else { None }, "after consuming {} of {} items, last() is wrong", pos, expected);
+        ensure!(lib!(it.clone().count()) == 0, "count() of the exhausted series = {}, want 0 (span {} step {} inclusive {})", it.clone().count(), span, c.step, c.inclusive);
+        ensure!(lib!(it.clone().last()).is_none() && lib!(it.clone().nth(0)).is_none(), "last() / nth(0) of the exhausted series yields an item");
         ensure!(lib!(fresh().count()) as i128 == expected, "count() = {}, want {}", fresh().count(), expected);
         let last = lib!(fresh().last());
         ensure!(last.map(|e| count(e.duration)) == if expected > 0 { Some(item(expected - 1)) } else { None }, "last() wrong");
